@@ -15,9 +15,10 @@ from spec import prims  # noqa: E402
 import jsonpath_rfc9535 as jp  # noqa: E402
 
 from spec import lexer as _lexer_spec  # noqa: E402
+from spec import text as _text_spec  # noqa: E402
 
 NS = dict(vars(refsem.prims))
-for m in (refsem.rfc_select, refsem.rfc_filter, refsem.pysem, _lexer_spec):
+for m in (refsem.rfc_select, refsem.rfc_filter, refsem.pysem, _lexer_spec, _text_spec):
     NS.update({k: v for k, v in vars(m).items() if not k.startswith("__")})
 
 
